@@ -103,6 +103,78 @@ def u_align2(pattern=(0, 1), npts=1, rot0=2, theta='free'):
                              'parry Polyline projection by contract (C02)'], timeout_ms=15000)
 
 
+def u_align3(mode='ToPlane', rot0=1, rx='zero', tri=0):
+    """points_to_mesh on one concrete triangle, one symbolic point; final parameters: symbolic translation, rotation about x by 0 or pi/2"""
+    from .c02 import TRI_V, TRI_F
+    from .c14 import mesh_val
+    T0 = Iso(3, rot0, px='i')
+    P = [R_('m0x'), R_('m0y'), R_('m0z')]
+    x = [R_('x0'), R_('x1'), R_('x2')]
+    ok = z3.Bool('lm_ok')
+    base = T0.base + bounded(*P, b=10) + bounded(*x, b=10) + [z3.And(c >= -10, c <= 10) for c in T0.t]
+    st = {}
+    M = get_mir()
+    f_set = M.resolve('<PointsToMesh as LeastSquaresProblem<f64, Dyn, U6>>::set_params')
+    faces = [TRI_F[tri]]
+
+    def lm_minimize(eng, callee, args):
+        problem = unref(args[1])
+        a0 = Angle(Fraction(0)) if rx == 'zero' else Angle(Fraction(1, 2))
+        eng.run_fn(f_set, [Ref.to(problem), Ref.to([x[0], x[1], x[2], a0, Angle(Fraction(0)), Angle(Fraction(0))])])
+        st['problem'] = problem
+        return [problem, Struct('MinimizationReport', [Opaque('termination'), 1, rat(0)])]
+
+    def composite(eng, _a):
+        mesh = mesh_val(TRI_V, faces)
+        res = eng.call('points_to_mesh', [Ref.to(VecV([pt(list(P))])), Ref.to(mesh), Ref.to(T0.val()), En(mode, [], 'DistMode')])
+        out = {'res': res, 'check': None}
+        if res.v == 'Ok':
+            al = res.f[0]
+            Rm, t = iso_rt(al[0], 3)
+            m = [matvec(Rm, P)[k] + t[k] for k in range(3)]
+            sp = eng.call('Mesh::surf_closest_to', [Ref.to(mesh), Ref.to(pt(list(m)))])
+            if mode == 'ToPlane':
+                out['check'] = ('signed', eng.call('SurfacePoint::scalar_projection', [Ref.to(sp), Ref.to(pt(list(m)))]))
+            else:
+                out['check'] = ('point', d2(m, vec_of(sp[0])))
+        return out
+
+    def post(eng, c, r):
+        res = r['res']
+        obs = [holds('an alignment is returned exactly when the solver reports success', z3.BoolVal(res.v == 'Ok') == ok)]
+        if res.v != 'Ok':
+            return obs
+        al = res.f[0]
+        resid = [num(v) for v in items_of(al[1])]
+        obs.append(holds('one residual per input point', z3.BoolVal(len(resid) == 1)))
+        if resid:
+            kind, val = r['check']
+            obs.append(holds('residual is not negative (a distance)', resid[0] >= 0))
+            if kind == 'signed':
+                v = num(val)
+                obs.append(eq('residual is the distance to the plane of the closest face for the point moved by the returned transform', resid[0], z3.If(v >= 0, v, -v), scale=400))
+            else:
+                obs.append(eq('residual is the distance to the closest point for the point moved by the returned transform', resid[0] * resid[0], val, scale=4000))
+        prm = st['problem'][2]
+        Rp, tp = iso_rt(prm[4], 3)
+        Rm, t = iso_rt(al[0], 3)
+        for a in range(3):
+            for b in range(3):
+                obs.append(eq(f'returned rotation is that of the final parameters [{a}][{b}]', Rm[a][b], Rp[a][b]))
+            obs.append(eq(f'returned translation is that of the final parameters [{a}]', t[a], tp[a], scale=400))
+        rc = vec_of(prm[0])
+        for k in range(3):
+            obs.append(eq(f'rotation centre is the mean of the input points [{k}]', num(rc[k]), P[k], scale=40))
+        return obs
+
+    inp = {**T0.inp, 'm0x': P[0], 'm0y': P[1], 'm0z': P[2], 'x0': x[0], 'x1': x[1], 'x2': x[2], 'lm_ok': ok}
+    return Unit(f'points_to_mesh[{mode},{T0.label()},final rx={rx},triangle {tri}]', composite, lambda eng: ([], None), post, base=base, inputs=inp, const_generics={'D': 3},
+                observers={'minimize': lm_minimize, 'was_successful': lambda eng, callee, args: eng.branch(ok), 'LevenbergMarquardt::new': lambda eng, callee, args: Opaque('LevenbergMarquardt')},
+                replay=('align3', lambda mm: {'vertices': TRI_V, 'faces': faces, 'point': [mm['m0x'], mm['m0y'], mm['m0z']], 'iso': T0.json(mm), 'mode': mode}), loop_budget=128, max_paths=20000,
+                bounds={'mesh': f'triangle {tri} of the folded quad', 'input points': '1 symbolic, |coords| <= 10', 'initial isometry': T0.label() + ', |t| <= 10', 'final parameters': f'|translation| <= 10, rotation about x: {rx}'},
+                assumptions=['LevenbergMarquardt::minimize by contract (see module docstring)', 'parry TriMesh projection by contract (C02)'], timeout_ms=15000)
+
+
 def j_align(o, rep, out):
     """the real build runs its own Levenberg-Marquardt iteration on the model's geometry; transform and residuals of whatever state it
     ends in must agree (the model's x* is not used: a stale-state defect shows for every final state that differs from the initial one)"""
@@ -118,8 +190,10 @@ JUDGES = {'*': j_align}
 
 UNITS = {
     'quick': [('u_align2', {'pattern': (0, 1), 'npts': 1, 'rot0': 2, 'theta': 'free'}), ('u_align2', {'pattern': (4, 3), 'npts': 1, 'rot0': 0, 'theta': 'half'}),
-              ('u_align2', {'pattern': (6, 0), 'npts': 1, 'rot0': 3, 'theta': 0})],
-    'thorough': [('u_align2', {'pattern': p, 'npts': 1, 'rot0': r, 'theta': th}) for p in ((0, 1), (4, 3), (6, 0), (1, 7)) for r in (0, 2, 3) for th in ('free', 'half', 0)],
+              ('u_align2', {'pattern': (6, 0), 'npts': 1, 'rot0': 3, 'theta': 0}),
+              ('u_align3', {'mode': 'ToPlane', 'rot0': 1, 'rx': 'zero', 'tri': 0}), ('u_align3', {'mode': 'ToPoint', 'rot0': 0, 'rx': 'half', 'tri': 0})],
+    'thorough': [('u_align2', {'pattern': p, 'npts': 1, 'rot0': r, 'theta': th}) for p in ((0, 1), (4, 3), (6, 0), (1, 7)) for r in (0, 2, 3) for th in ('free', 'half', 0)] +
+                [('u_align3', {'mode': m, 'rot0': r, 'rx': a, 'tri': t}) for m in ('ToPlane', 'ToPoint') for r in (0, 1, 2) for a in ('zero', 'half') for t in (0, 1)],
 }
 
 
